@@ -19,7 +19,7 @@ RULE = ('every n<=N, 1<=m<=n, matrix kind, start kind, invariant-block size and 
 BUDGET = {'quick': 300, 'thorough': 2400}
 
 
-def _cases(N):
+def _cases(N, NU):
     for n in range(1, N + 1):
         for algo, kinds in (('lanczos', kc.MATRIX_KINDS_H), ('arnoldi', kc.MATRIX_KINDS_G + kc.MATRIX_KINDS_H)):
             for kind in kinds:
@@ -31,12 +31,32 @@ def _cases(N):
                                 continue
                             for m in range(1, n + 1):
                                 yield [algo, n, m, kind, k, sk, how]
+                                if how == 'fresh' and n <= NU:
+                                    for units in list(kc.UNITS)[1:]:
+                                        yield [algo, n, m, kind, k, sk, how, units]
 
 
 def run_case(case, ctx):
-    algo, n, m, kind, k, sk, how = case
+    algo, n, m, kind, k, sk, how = case[:7]
+    units = case[7] if len(case) > 7 else 'unit'
     A, v, kd = kc.build(ctx.rng(0), n, kind, sk, k)
+    # units: the map and the start vector times exact powers of two; everything is judged after undoing the scaling
+    sa, sv = kc.UNITS[units]
+    A, v = A * sa, v * sv
     f = kc.present(A, kind, how)
+    ctx.cls('units:' + units)
+    n0 = len(ctx.fails)
+    known = kc.below_threshold(A, v, m, kd)
+    if known:
+        ctx.cls('genuine_offdiagonal_below_absolute_threshold')
+    try:
+        _judge(ctx, algo, n, m, kd, A / sa, v, f, sa, how)
+    finally:
+        if known:
+            kc.add_class(ctx, n0, kc.KNOWN_CLASS)
+
+
+def _judge(ctx, algo, n, m, kd, A, v, f, sa, how):
     v_in = v.copy()
     ctx.nontrivial = n >= 2 and m >= 2
     ctx.cls(f'{algo}:{"full" if kd >= m else "exhausted_early"}')
@@ -50,6 +70,7 @@ def run_case(case, ctx):
     ctx.calls += 1
     ctx.check(np.array_equal(v, v_in), 'start_vector_unchanged')
     if algo == 'lanczos':
+        alpha, beta = alpha / sa, beta / sa
         ctx.obs(alpha, beta, V)
         kk = len(alpha)
         if not ctx.check(V.ndim == 2 and V.shape == (n, kk) and len(beta) == kk - 1 and 1 <= kk <= m, 'output_sizes_consistent',
@@ -65,8 +86,9 @@ def run_case(case, ctx):
         ctx.check(bool(np.all(beta[:lead - 1] > 0)), 'offdiagonals_positive', beta)
         T = np.diag(alpha[:lead]) + np.diag(beta[:lead - 1], 1) + np.diag(beta[:lead - 1], -1)
         ctx.close(Vl.conj().T @ A @ Vl, T, 'projected_map_equals_tridiagonal', tol=1e-9)
-        ctx.close(V[:, 0] * np.linalg.norm(v_in), v_in, 'first_vector_is_normalised_start', tol=1e-12)
+        ctx.close(V[:, 0], v_in / np.linalg.norm(v_in), 'first_vector_is_normalised_start', tol=1e-12)
     else:
+        H = H / sa
         ctx.obs(H, V)
         kk = H.shape[0]
         if not ctx.check(H.ndim == 2 and H.shape == (kk, kk) and V.shape == (n, kk) and 1 <= kk <= m, 'output_sizes_consistent',
@@ -86,11 +108,12 @@ def run_case(case, ctx):
 
 
 def sig(case):
-    return f'{case[0]}:{case[3]}:{case[6]}'
+    return f'{case[0]}:{case[3]}:{case[6]}' + (':' + case[7] if len(case) > 7 else '')
 
 
 def spaces(tier, seed):
     N = 10 if tier == "quick" else 12
-    return [Space('krylov_iterations', core.chunked(_cases(N), 200), run_case=run_case, sig=sig,
-                  bounds={'n<=': N, 'm': '1..n', 'matrix_kinds': kc.MATRIX_KINDS_H + kc.MATRIX_KINDS_G, 'start_kinds': kc.START_KINDS,
+    NU = 8 if tier == "quick" else 10
+    return [Space('krylov_iterations', core.chunked(_cases(N, NU), 200), run_case=run_case, sig=sig,
+                  bounds={'n<=': N, 'units': f'{list(kc.UNITS)} for n <= {NU} (fresh presentation)', 'm': '1..n', 'matrix_kinds': kc.MATRIX_KINDS_H + kc.MATRIX_KINDS_G, 'start_kinds': kc.START_KINDS,
                           'presentations': kc.PRESENTATIONS})]
